@@ -61,6 +61,8 @@ pub struct Profile {
     pub overflow_sizes: bool,
     /// callbacks that drop or clone another handle while the operation runs
     pub callback_fx: bool,
+    /// another thread dropping / cloning another handle in the middle of an operation (at a hook event)
+    pub intrusions: bool,
 }
 
 impl Profile {
@@ -91,10 +93,11 @@ impl Profile {
             huge_texts: false,
             overflow_sizes: false,
             callback_fx: false,
+            intrusions: false,
         }
     }
     pub fn sharing() -> Self {
-        Profile { slots: 4, w_clone: 30, w_drop: 10, w_trunc: 16, w_retain: 6, w_extend: 8, callback_fx: true, ..Self::base() }
+        Profile { slots: 4, w_clone: 30, w_drop: 10, w_trunc: 16, w_retain: 6, w_extend: 8, callback_fx: true, intrusions: true, ..Self::base() }
     }
     pub fn statics() -> Self {
         Profile { slots: 4, w_static: 25, w_ctor: 3, w_clone: 14, w_trunc: 18, ..Self::base() }
@@ -446,7 +449,22 @@ pub fn op_strategy(p: &Profile) -> BoxedStrategy<Op> {
 }
 
 pub fn history_strategy(p: &Profile) -> BoxedStrategy<History> {
-    vec(op_strategy(p), p.min_ops..=p.max_ops).prop_map(|ops| History { ops, plan: Plan::default() }).boxed()
+    if !p.intrusions {
+        return vec(op_strategy(p), p.min_ops..=p.max_ops).prop_map(|ops| History { ops, plan: Plan::default() }).boxed();
+    }
+    // half of the histories: another thread drops (3 of 4) or clones another handle at one of the first hook
+    // events of one operation
+    let slots = p.slots;
+    let intr = prop_oneof![
+        1 => Just(None),
+        1 => (any::<u16>(), 0u16..=9, 0u8..slots, 0u8..4).prop_map(|(step, at, slot, d)| Some((step, at, slot, d != 0))),
+    ];
+    (vec(op_strategy(p), p.min_ops..=p.max_ops), intr)
+        .prop_map(|(ops, intr)| {
+            let intrude = intr.map(|(step, at, slot, drop)| Intrude { step: ((step as usize * ops.len().max(1)) >> 16) as u16, at, slot, drop });
+            History { ops, plan: Plan { faults: Vec::new(), intrude } }
+        })
+        .boxed()
 }
 
 // ------------------------------------------------------------------------------------------------
